@@ -78,7 +78,52 @@ UNITS['c10'] = {
     ],
 }
 
+UNITS['c03'] = {
+    'template': 'contracts/c03.vrs',
+    'mutants': [
+        ('path_param_optional', 'parameter_data: self.prop_param_data(prop, true),', 'parameter_data: self.prop_param_data(prop, false),', ['C03.path']),
+        ('variable_without_braces', '{ format_braced(&p.name) }', '{ str_to_string(p.name.as_ref()) }', ['C03.path']),
+        ('path_param_skipped_for_first', 'params.push(ReferenceOr::Item(self.prop_path_param(p)));', 'if params.len() > 0 { params.push(ReferenceOr::Item(self.prop_path_param(p))); }', ['C03.path']),
+        ('ref_to_wrong_name', 'format_schema_ref(name.untagged())', 'format_schema_ref(str_to_string(name.s.as_str()))', ['C03.ref']),
+        ('component_under_raw_name', 'schemas.insert(name.untagged(), self.schema(s));', 'schemas.insert(str_to_string(name.s.as_str()), self.schema(s));', ['C03.ref']),
+        ('components_drop_objects', 'if self.maybe_inline(name).is_none() {', 'if self.maybe_inline(name).is_none() && schemas.v.len() < 1 {', ['C03.ref']),
+        ('status_range_shifted', 'atom::HttpStatusRange::ServerError => 5,', 'atom::HttpStatusRange::ServerError => 6,', ['C03.status']),
+    ],
+}
+
+def _fn_text_scan(name, file, impl, fn, must, must_not=None):
+    return {'name': name, 'kind': 'fn_text', 'file': file, 'impl': impl, 'fn': fn, 'must': must, 'must_not': must_not or []}
+
 PROPS = {
+    'C03': {
+        'units': ['c03'],
+        'kani': [dict(_KANI_STATUS, obligation='C03.status.code_domain')],
+        'level': 'other',
+        'obligation_prefixes': ['C03.', 'SCAFFOLD.C03.'],
+        'scans': [
+            _fn_text_scan('A2.value_schema_returns_item', 'oal-openapi/src/lib.rs', 'impl Builder', 'value_schema', [r'ReferenceOr::Item\(sch\)\s*\}\s*$'], [r'ReferenceOr::Reference']),
+            _fn_text_scan('A3.path_key_from_same_uri', 'oal-openapi/src/lib.rs', 'impl Builder', 'all_paths', [r'rel\.uri\.pattern\(\)', r'self\.relation_path_item\(rel\)']),
+            _fn_text_scan('A3.path_params_from_same_uri', 'oal-openapi/src/lib.rs', 'impl Builder', 'relation_path_item', [r'parameters:\s*self\.uri_params\(&rel\.uri\)']),
+            {'name': 'A4.status_code_constructed_only_in_try_from', 'kind': 'grep_count', 'token': r'HttpStatus::Code\s*\(',
+             'files': ['oal-syntax/src/atom.rs', 'oal-syntax/src/lexer.rs', 'oal-syntax/src/parser.rs', 'oal-compiler/src/eval.rs', 'oal-compiler/src/spec.rs',
+                       'oal-compiler/src/stdlib.rs', 'oal-compiler/src/annotation.rs', 'oal-openapi/src/lib.rs'], 'count': 2},
+        ],
+        'technique': 'Verus contracts on the real emitter functions (status keys, Uri::pattern/pattern_with vs uri_params, maybe_inline/reference_schema/all_components) plus a complete Kani proof of the status-code domain',
+        'level_text': 'Deductive proof (Verus/Z3, Kani for the code domain) of three emitter invariants, for every evaluated program: response keys are 100-599 or 1XX-5XX; '
+                      'a path key is the rendering of its URI path with variables as {name} and the in:path parameters of the same path item are exactly those variables, in order, each required; '
+                      'a schema use is a $ref only if all_components emits a component under exactly the referenced name. '
+                      'operationId uniqueness, YAML round trip, and that every Ref in the evaluated program is in the reference table are not decided: level other.',
+        'level_note': 'Trusted: IndexMap shim (ordered association list), format! strings rendered as stated, atom::Ident::{is_reference,untagged} and atom::Text::as_ref as text functions, '
+                      'value_schema returns an Item (scan A2), all_paths/relation_path_item use the same rel.uri for key and parameters (scan A3), HttpStatus::Code only built in try_from (scan A4). '
+                      'Assumed evaluator invariant: reference expressions name entries of the reference table (refs_closed / uri_refs_known). '
+                      'The inline policy spec `inlined` is scaffolding: if maybe_inline\'s policy changes, the check reports UNDECIDED, not a violation.',
+        'design_ref': 'DESIGN.md section 5, C03',
+        'explanation': 'Decides the $ref/component agreement of the emitter, path-key/path-parameter agreement at segment level, and the response-key domain. '
+                       'Not decided: operationId uniqueness (xfer_id is an iterator chain outside Verus; known duplicate get-a-b noted in DESIGN section 6), YAML round-trip (serde_yaml), '
+                       'name collisions between untagged() names, evaluator invariant that every Ref has a table entry.',
+        'assumptions': ['evaluator invariant refs_closed / uri_refs_known', 'variable names inside a path pairwise distinct (property hypothesis)', 'literals and names are brace-free (lexer patterns)'],
+        'not_decided': ['operationIds are unique', 'the YAML text parses back to the same document', 'every Ref(name) in the evaluated spec has an entry in spec.refs', 'collisions between untagged() component names'],
+    },
     'C10': {
         'units': ['c10'],
         'level': 'proof',
@@ -244,7 +289,6 @@ NOT_APPLICABLE = {
     'C17': 'defined against the binding relation (C08, not available) for every cursor position, answered by the running server',
     'C18': 'rename correctness is alpha-equivalence of two whole programs (C05 shape) and depends on the resolver invariant (C08)',
     'C01': 'contract not completed yet (see DESIGN.md section 5, C01)',
-    'C03': 'contract not completed yet',
 }
 
 
@@ -269,6 +313,22 @@ def run_scan(sc):
         if bad:
             return False, 'scan %s: token %s occurs in %s' % (sc['name'], sc['token'], bad)
         return True, 'scan %s: ok (%d functions scanned)' % (sc['name'], n)
+    if sc['kind'] == 'fn_text':
+        path = os.path.join(REPO, sc['file'])
+        src = open(path).read()
+        kind = rs.code_mask(src)
+        try:
+            it = rs.find_item(src, kind, [('impl', sc['impl']), ('fn', sc['fn'])])
+        except rs.ScanError as e:
+            return False, 'scan %s: lost anchor %s' % (sc['name'], e)
+        text = ''.join(ch if kind[it.sig_start + i] != 'k' else ' ' for i, ch in enumerate(src[it.sig_start:it.end]))
+        for pat in sc['must']:
+            if not re.search(pat, text):
+                return False, 'scan %s: expected text /%s/ not found in %s' % (sc['name'], pat, sc['fn'])
+        for pat in sc['must_not']:
+            if re.search(pat, text):
+                return False, 'scan %s: unexpected text /%s/ in %s' % (sc['name'], pat, sc['fn'])
+        return True, 'scan %s: ok' % sc['name']
     if sc['kind'] == 'grep_count':
         total = 0
         for rel in sc['files']:
